@@ -372,6 +372,11 @@ func (its *PushPullHandler) processSubscribeOrCreate(code pushPullCase) errors.O
 		case caseUsedDUID: // duplicate DUID; can create with key but with another DUID
 		case caseMatchKeyNotType: // key is already used;
 		case caseAllMatchedSubscribed: // already created and subscribed; might duplicate creation; do nothing
+			if its.DUID != its.datatypeDoc.DUID {
+				// the key belongs to a datatype with another id: creating it again is a duplicate, and the
+				// foreign id must not be used for the push and pull that follow
+				return errors.PushPullDuplicateKey.New(its.ctx.L(), its.Key)
+			}
 		case caseAllMatchedNotSubscribed: // error: already created but not subscribed;
 			return errors.PushPullDuplicateKey.New(its.ctx.L(), its.Key)
 		case caseAllMatchedNotVisible: //
